@@ -289,7 +289,8 @@ def _(i, st, a, c): return Agg('array', a[0].items)
 
 
 @model(r'<DVec3 as Clone>::clone', r'<DVec4 as Clone>::clone', r'<f64 as Clone>::clone', r'<usize as Clone>::clone',
-       r'<bool as Clone>::clone', r'<Option as Clone>::clone', r'<\[f64; 3\] as Clone>::clone')
+       r'<bool as Clone>::clone', r'<Option as Clone>::clone', r'<\[f64; 3\] as Clone>::clone', r'<PhantomData as Clone>::clone',
+       r'<\[usize; 3\] as Clone>::clone')
 def _(i, st, a, c): return i.deref_read(st, a[0])
 
 
